@@ -1,4 +1,176 @@
+/-
+  C07 — The stored resume position only moves forward along command boundaries.
+
+  Model: GunYu/Model/Sender.lean (`run` = the sendCmdsBatch loop over ANY event
+  list: items in stream order interleaved with batch / keep-alive / checkpoint
+  ticks and `done`, in any arrangement — an idle source is a list of ticks).
+  `cpOffsets out` = every `<runid>_offset` value written, in wire order.
+  Item offsets are command END offsets (Model `parseStep`, tied by the
+  correspondence harness) or the offset the run started from (the initial
+  SELECT item of a resumed run).
+-/
 import GunYu.Model.Sender
 import GunYu.Model.Target
+import GunYu.Proofs.SenderCp
+
 namespace GunYu.Props.C07
+open GunYu GunYu.Sender
+
+/-- offsets carried by the item events of a schedule -/
+def itemOffsets : List Ev → List Int
+  | [] => []
+  | .item it :: rest => it.offset :: itemOffsets rest
+  | _ :: rest => itemOffsets rest
+
+/-- item offsets never decrease along the schedule, starting from `lo` -/
+def Mono : Int → List Ev → Prop
+  | _, [] => True
+  | lo, .item it :: rest => lo ≤ it.offset ∧ Mono it.offset rest
+  | lo, _ :: rest => Mono lo rest
+
+theorem mem_shape {old new o : Int} {l : List Int} (h : StepShape old new l) (ho : o ∈ l) :
+    0 ≤ o ∧ (o = old ∨ o = new) := by
+  obtain ⟨l1, l2, rfl, h1, h2⟩ := h
+  rcases List.mem_append.mp ho with m | m
+  · rcases h1 with rfl | ⟨rfl, hp⟩ | ⟨rfl, hp⟩
+    · cases m
+    · simp at m; subst m; exact ⟨hp, Or.inl rfl⟩
+    · simp at m; subst m; exact ⟨hp, Or.inr rfl⟩
+  · rcases h2 with rfl | ⟨rfl, hp⟩
+    · cases m
+    · simp at m; subst m; exact ⟨hp, Or.inr rfl⟩
+
+theorem pairwise_shape {old new : Int} {l : List Int} (h : StepShape old new l) (hle : old ≤ new) :
+    l.Pairwise (· ≤ ·) := by
+  obtain ⟨l1, l2, rfl, h1, h2⟩ := h
+  rcases h1 with rfl | ⟨rfl, _⟩ | ⟨rfl, _⟩ <;> rcases h2 with rfl | ⟨rfl, _⟩ <;> simp [hle]
+
+theorem newLast_mem (s : SState) (ev : Ev) (rest : List Ev) :
+    newLast s ev = s.lastOffset ∨ newLast s ev ∈ itemOffsets (ev :: rest) := by
+  cases ev <;> simp [newLast, itemOffsets]
+
+/-- **Every stored offset is a command boundary** (an offset carried by an item
+    the loop has received) or the position the loop started with, and is never
+    negative — in particular never the "-1 / undefined" marker. For every
+    configuration, every state, every schedule. -/
+theorem cp_boundary (c : SCfg) (s : SState) (evs : List Ev) :
+    ∀ o ∈ cpOffsets (run c s evs).2, 0 ≤ o ∧ (o = s.lastOffset ∨ o ∈ itemOffsets evs) := by
+  induction evs generalizing s with
+  | nil => intro o ho; simp [run] at ho
+  | cons ev rest ih =>
+    intro o ho
+    obtain ⟨hlast, hshape⟩ := step_cp c s ev
+    have hstep : ∀ o ∈ cpOffsets (step c s ev).2,
+        0 ≤ o ∧ (o = s.lastOffset ∨ o ∈ itemOffsets (ev :: rest)) := by
+      intro o ho
+      obtain ⟨hp, h⟩ := mem_shape hshape ho
+      refine ⟨hp, ?_⟩
+      rcases h with h | h
+      · exact Or.inl h
+      · rcases newLast_mem s ev rest with e | e
+        · left; rw [h, e]
+        · right; rw [h]; exact e
+    simp only [run] at ho
+    split at ho
+    · exact hstep o ho
+    · rw [cpOffsets_append] at ho
+      rcases List.mem_append.mp ho with m | m
+      · exact hstep o m
+      · obtain ⟨hp, h⟩ := ih (step c s ev).1 o m
+        refine ⟨hp, ?_⟩
+        rcases h with h | h
+        · rw [hlast] at h
+          rcases newLast_mem s ev rest with e | e
+          · left; rw [h, e]
+          · right; rw [h]; exact e
+        · right
+          cases ev <;> simp [itemOffsets, h]
+
+/-- From a fresh loop (`lastOffset = -1`) every stored offset is the end offset
+    of a command (or the start offset item) actually received. -/
+theorem cp_boundary_fresh (c : SCfg) (evs : List Ev) :
+    ∀ o ∈ cpOffsets (run c initS evs).2, o ∈ itemOffsets evs := by
+  intro o ho
+  obtain ⟨hp, h⟩ := cp_boundary c initS evs o ho
+  rcases h with h | h
+  · exfalso; simp [initS] at h; omega
+  · exact h
+
+theorem mono_newLast (s : SState) (ev : Ev) (rest : List Ev) (h : Mono s.lastOffset (ev :: rest)) :
+    s.lastOffset ≤ newLast s ev ∧ Mono (newLast s ev) rest := by
+  cases ev <;> simp [Mono, newLast] at h ⊢ <;> exact h
+
+/-- **Successive stored offsets never decrease** within a run, and none is
+    smaller than the position the loop held when the schedule began. -/
+theorem cp_monotone (c : SCfg) (s : SState) (evs : List Ev) (hm : Mono s.lastOffset evs) :
+    (cpOffsets (run c s evs).2).Pairwise (· ≤ ·) ∧
+    ∀ o ∈ cpOffsets (run c s evs).2, s.lastOffset ≤ o := by
+  induction evs generalizing s with
+  | nil => simp [run]
+  | cons ev rest ih =>
+    obtain ⟨hlast, hshape⟩ := step_cp c s ev
+    obtain ⟨hle, hrest⟩ := mono_newLast s ev rest hm
+    have hstep_ge : ∀ o ∈ cpOffsets (step c s ev).2, s.lastOffset ≤ o := by
+      intro o ho
+      rcases (mem_shape hshape ho).2 with h | h <;> omega
+    have hstep_le : ∀ o ∈ cpOffsets (step c s ev).2, o ≤ newLast s ev := by
+      intro o ho
+      rcases (mem_shape hshape ho).2 with h | h <;> omega
+    simp only [run]
+    split
+    · exact ⟨pairwise_shape hshape hle, hstep_ge⟩
+    · rw [cpOffsets_append]
+      have hr := ih (step c s ev).1 (by rw [hlast]; exact hrest)
+      rw [hlast] at hr
+      refine ⟨?_, ?_⟩
+      · rw [List.pairwise_append]
+        refine ⟨pairwise_shape hshape hle, hr.1, ?_⟩
+        intro a ha b hb
+        have := hstep_le a ha
+        have := hr.2 b hb
+        omega
+      · intro o ho
+        rcases List.mem_append.mp ho with m | m
+        · exact hstep_ge o m
+        · have := hr.2 o m; omega
+
+/-- **Across a restart**: if the next run only receives items at or beyond the
+    position `x` it resumed from (the parser starts at `x`; the optional initial
+    SELECT item carries `x` itself), nothing it stores is below `x`; so when
+    `x` is at least everything stored before, stored positions never decrease
+    over any number of restarts. -/
+theorem restart_monotone (c : SCfg) (x : Int) (evs : List Ev)
+    (hge : ∀ o ∈ itemOffsets evs, x ≤ o) :
+    ∀ o ∈ cpOffsets (run c initS evs).2, x ≤ o := by
+  intro o ho
+  exact hge o (cp_boundary_fresh c evs o ho)
+
+/-- An idle source (ticks only, in any number and order) stores nothing new
+    beyond the position already held, and nothing at all when the run has not
+    consumed anything yet — a keep-alive never replaces a good position. -/
+theorem idle_stores_nothing_fresh (c : SCfg) (evs : List Ev) (hidle : itemOffsets evs = []) :
+    cpOffsets (run c initS evs).2 = [] := by
+  apply List.eq_nil_iff_forall_not_mem.mpr
+  intro o ho
+  have := cp_boundary_fresh c evs o ho
+  rw [hidle] at this
+  cases this
+
+/-! Non-vacuity: a transactional, resumable configuration; a schedule with a
+    keep-alive before the first item, a SELECT barrier and a transaction. -/
+def exCfg : SCfg := { txnMode := true, resume := true, batchCount := 2, batchBytes := 1000 }
+def exEvs : List Ev :=
+  [ .keepaliveTick,
+    .item { cmd := bSelect, args := [[49]], offset := 1023, db := 1 },
+    .item { cmd := [115,101,116], args := [[97],[98]], offset := 1050, db := 1 },
+    .batchTick,
+    .item { cmd := bMulti, args := [], offset := 1065, db := 1 },
+    .item { cmd := [115,101,116], args := [[99],[100]], offset := 1092, db := 1 },
+    .item { cmd := bExec, args := [], offset := 1106, db := 1 },
+    .cpTick, .done ]
+
+example : Mono initS.lastOffset exEvs := by simp [exEvs, Mono, initS]
+example : cpOffsets (run exCfg initS exEvs).2 = [1050, 1050, 1106] := by decide
+example : itemOffsets exEvs = [1023, 1050, 1065, 1092, 1106] := by decide
+
 end GunYu.Props.C07
